@@ -87,10 +87,13 @@ class Rec:
         self.evals = {}
         self.fails = []
         self.nfail = {}
+        self.kept = {}
+        self.trivial = False
         self.counters = {}
 
     def case(self, desc, nontrivial=True):
         self.cases.append((desc, nontrivial))
+        self.trivial = not nontrivial
 
     def count(self, name, n=1):
         self.counters[name] = self.counters.get(name, 0) + n
@@ -102,9 +105,11 @@ class Rec:
             return True
         key = key or name
         self.nfail[key] = self.nfail.get(key, 0) + 1
-        if self.nfail[key] <= 2:
+        k2 = (key, self.trivial)
+        self.kept[k2] = self.kept.get(k2, 0) + 1
+        if self.kept[k2] <= 2:  # a couple of examples per kind of failure, degenerate inputs counted apart
             self.fails.append(dict(function=function, clause=clause, input=dict(spec=spec, call=call),
-                                   expected=expected, observed=observed, key=key,
+                                   expected=expected, observed=observed, key=key, trivial=self.trivial,
                                    replay=dict(spec=spec, key=key)))
         return False
 
@@ -112,7 +117,7 @@ class Rec:
         return dict(cases=self.cases, evals=self.evals, fails=self.fails, nfail=self.nfail, counters=self.counters)
 
 
-def _merge(ctx, out, forwarded):
+def _merge(ctx, out, fails):
     for desc, nontrivial in out["cases"]:
         ctx.case(desc, nontrivial)
     for name, n in out["evals"].items():
@@ -121,8 +126,14 @@ def _merge(ctx, out, forwarded):
         ctx.count(name, n)
     for key, n in out["nfail"].items():
         ctx.count("failed evaluations of " + key, n)
-    for f in out["fails"]:
-        # ctx keeps 50 violations in all: forward at most two per kind so that one kind cannot hide the others
+    fails.extend(out["fails"])
+
+
+def _forward(ctx, fails):
+    """ctx keeps 50 violations in all: forward two per kind of failure (examples on non-degenerate inputs first, then in
+    generation order) so that one frequent kind cannot hide the others."""
+    forwarded = {}
+    for f in sorted(fails, key=lambda f: f["trivial"]):  # stable
         if forwarded.get(f["key"], 0) >= 2:
             continue
         forwarded[f["key"]] = forwarded.get(f["key"], 0) + 1
@@ -276,9 +287,10 @@ def check_hg(rec, spec):
             if run.bijection(fn, None, m, D.shape[0], nodeset, nodeset, r[1]):
                 run.matrix(fn, "entry (i,e) = 1 iff node i in hyperedge e", None, D, (N, E),
                            lambda i, j: 1 if m[i] in esets[j] else 0)
-            ok2, r2 = run.call(fn, lambda: f(), "return_mapping=False")
-            if ok2:
-                run.check(_same(_dense(r2), D), fn, NOMAP, expected=D.tolist(), observed=_dense(r2).tolist())
+            if fn.startswith("linalg."):
+                ok2, r2 = run.call(fn, lambda: f(), "return_mapping=False")
+                if ok2:
+                    run.check(_same(_dense(r2), D), fn, NOMAP, expected=D.tolist(), observed=_dense(r2).tolist())
     for fn, f in (("linalg.incidence_matrix", lambda **kw: L.incidence_matrix(h, **kw)),
                   ("Hypergraph.incidence_matrix", lambda **kw: h.incidence_matrix(**kw))):
         ok, r = run.call(fn, lambda: _pair(f(return_mapping=True)), "return_mapping=True")
@@ -287,9 +299,10 @@ def check_hg(rec, spec):
             if run.bijection(fn, None, m, D.shape[0], nodeset, nodeset, r[1]):
                 run.matrix(fn, "entry (i,e) = weight of e if node i in e else 0", None, D, (N, E),
                            lambda i, j: wts[j] if m[i] in esets[j] else 0)
-            ok2, r2 = run.call(fn, lambda: f(), "return_mapping=False")
-            if ok2:
-                run.check(_same(_dense(r2), D), fn, NOMAP, expected=D.tolist(), observed=_dense(r2).tolist())
+            if fn.startswith("linalg."):
+                ok2, r2 = run.call(fn, lambda: f(), "return_mapping=False")
+                if ok2:
+                    run.check(_same(_dense(r2), D), fn, NOMAP, expected=D.tolist(), observed=_dense(r2).tolist())
 
     # ---- adjacency
     for fn, f in (("linalg.adjacency_matrix", lambda **kw: L.adjacency_matrix(h, **kw)),
@@ -304,16 +317,19 @@ def check_hg(rec, spec):
             D = _dense(r[0])
             run.matrix(fn, "entry (e,f) = 1 iff e and f share a node", None, D, (E, E),
                        lambda i, j: 1 if esets[i] & esets[j] else 0)
-            ok2, r2 = run.call(fn, lambda: f(), "return_mapping=False")
-            if ok2:
-                run.check(_same(_dense(r2), D), fn, NOMAP, expected=D.tolist(), observed=_dense(r2).tolist())
+            if fn.startswith("linalg."):
+                ok2, r2 = run.call(fn, lambda: f(), "return_mapping=False")
+                if ok2:
+                    run.check(_same(_dense(r2), D), fn, NOMAP, expected=D.tolist(), observed=_dense(r2).tolist())
 
     # ---- per-order variants, for every order 0..max+1 (present and absent)
     maxord = max([len(e) for e in edges], default=0)  # = max order + 1
+    adjmaps = {}
     for d in range(0, maxord + 1):
         cols = [c for c in range(E) if len(esets[c]) == d + 1]
         covered = set().union(*[esets[c] for c in cols]) if cols else set()
         rec.count("orders present" if cols else "orders absent")
+        rawmaps = {}
         for keep in (False, True):
             fn = "linalg.incidence_matrix_by_order"
             cl = f"order={d}, keep_isolated_nodes={keep}"
@@ -335,26 +351,26 @@ def check_hg(rec, spec):
             else:
                 run.matrix(fn, "unweighted: columns are the order-d hyperedges, entry (i,e) = 1 iff i in e", cl, D,
                            (len(m), len(cols)), lambda i, j: 1 if m[i] in esets[cols[j]] else 0)
-            ok2, r2 = run.call(fn, lambda: L.incidence_matrix_by_order(h, d, keep_isolated_nodes=keep),
-                               cl + ", return_mapping=False")
-            if ok2:
-                run.check(_same(_dense(r2), D), fn, NOMAP, cl, expected=D.tolist(), observed=_dense(r2).tolist())
+            rawmaps[keep] = (r[1], m)
+            if not keep:  # all defaults: keep_isolated_nodes=False, return_mapping=False
+                ok2, r2 = run.call(fn, lambda: L.incidence_matrix_by_order(h, d), f"order={d}, defaults")
+                if ok2:
+                    run.check(_same(_dense(r2), D), fn, NOMAP, cl, expected=D.tolist(), observed=_dense(r2).tolist())
         if weighted:
             continue  # the statement defines the remaining per-order matrices for unweighted hypergraphs only
         cl = f"order={d}"
         deg = {a: sum(1 for c in cols if a in esets[c]) for a in nodes}
-        m_adj = _adjacency(run, "linalg.adjacency_matrix_by_order",
+        m_adj = adjmaps[d] = _adjacency(run, "linalg.adjacency_matrix_by_order",
                            lambda **kw: L.adjacency_matrix_by_order(h, d, **kw), nodeset, nodeset, N,
                            lambda a, b: common(a, b, cols), cl)
         # degree matrix, under the full mapping and under the mapping of the non-isolated nodes
         for keep, key in ((True, None), (False, "linalg.degree_matrix:partial mapping")):
-            okm, rm = _quiet(lambda: L.incidence_matrix_by_order(h, d, keep_isolated_nodes=keep, return_mapping=True))
-            mm = _normmap(rm[1]) if okm and isinstance(rm, tuple) and len(rm) == 2 else None
-            if mm is None or not _is_bijection(mm, len(mm), set(), nodeset):
-                continue  # already reported above
+            if keep not in rawmaps:
+                continue  # incidence_matrix_by_order gave no usable mapping: already reported above
+            raw, mm = rawmaps[keep]
             fn = "linalg.degree_matrix"
             cl2 = cl + ", mapping=" + repr(_show(mm))
-            ok, r = run.call(fn, lambda: L.degree_matrix(h, d, rm[1]), cl2)
+            ok, r = run.call(fn, lambda: L.degree_matrix(h, d, raw), cl2)
             if ok:
                 run.matrix(fn, "entry (i,i) = number of order-d hyperedges containing node i, 0 off the diagonal", cl2,
                            _dense(r), (len(mm), len(mm)), lambda i, j: deg[mm[i]] if i == j else 0, key=key)
@@ -372,10 +388,9 @@ def check_hg(rec, spec):
             for d in sorted(r):
                 cols = [c for c in range(E) if len(esets[c]) == d + 1]
                 deg = {a: sum(1 for c in cols if a in esets[c]) for a in nodes}
-                okm, rm = _quiet(lambda: L.adjacency_matrix_by_order(h, d, return_mapping=True))
-                mm = _normmap(rm[1]) if okm and isinstance(rm, tuple) and len(rm) == 2 else None
-                if mm is None or not _is_bijection(mm, N, nodeset, nodeset):
-                    continue
+                mm = adjmaps.get(d)
+                if mm is None:
+                    continue  # adjacency_matrix_by_order gave no usable mapping for this order: reported above
                 _laplacian(run, fn, f"order={d}", _dense(r[d]), mm, N, d, deg,
                            lambda a, b, cols=cols: common(a, b, cols))
 
@@ -406,15 +421,6 @@ def _pair(r):
     if not (isinstance(r, tuple) and len(r) == 2):
         raise TypeError(f"return_mapping=True did not return a (matrix, mapping) pair but {type(r).__name__}")
     return r
-
-
-def _quiet(thunk):
-    try:
-        with warnings.catch_warnings():
-            warnings.simplefilter("ignore")
-            return True, thunk()
-    except Exception:
-        return False, None
 
 
 def _adjacency(run, fn, f, lower, upper, N, count, cl=None, key_suffix=None):
@@ -534,7 +540,8 @@ def check_temporal(rec, spec):
         ok2, r2 = run.call(fn, lambda: f(), _join(cl, "return_mapping=False"))
         if ok2:
             same = isinstance(r2, dict) and set(r2) == set(dense) and all(_same(_dense(r2[t]), dense[t]) for t in dense)
-            run.check(same, fn, NOMAP, cl)
+            run.check(same, fn, NOMAP, cl, expected={str(t): dense[t].tolist() for t in dense},
+                      observed={str(t): _dense(r2[t]).tolist() for t in r2} if isinstance(r2, dict) else repr(r2))
 
     one("linalg.temporal_adjacency_matrix", lambda **kw: L.temporal_adjacency_matrix(th, **kw), None, None)
     one("TemporalHypergraph.temporal_adjacency_matrix", lambda **kw: th.temporal_adjacency_matrix(**kw), None, None)
@@ -697,15 +704,16 @@ def run(ctx):
     size = 48
     chunks = [specs[i:i + size] for i in range(0, len(specs), size)]
     nproc = max(1, min(16, os.cpu_count() or 1))
-    forwarded = {}
+    fails = []
     if nproc > 1 and len(chunks) > 1:
         mp = multiprocessing.get_context("fork")
         with mp.Pool(nproc) as pool:
             for out in pool.imap(_work, chunks):  # ordered: the merge is deterministic
-                _merge(ctx, out, forwarded)
+                _merge(ctx, out, fails)
     else:
         for ch in chunks:
-            _merge(ctx, _work(ch), forwarded)
+            _merge(ctx, _work(ch), fails)
+    _forward(ctx, fails)
 
 
 def replay(data):
